@@ -87,7 +87,7 @@ func solveAll(obs []*Obligation, dir string, timeoutS int, keep bool) {
 			}
 			// overall budget for the staged attempts (the final full query always gets its own timeout)
 			t0 := time.Now()
-			over := func() bool { return time.Since(t0) > time.Duration(2*timeoutS)*time.Second }
+			over := func() bool { return time.Since(t0) > time.Duration(timeoutS)*time.Second }
 			o.File = writeQuery(dir, o.Name, q.Script(nil))
 			if o.Cover {
 				// vacuity guard: hypotheses must be satisfiable. Quantified hypotheses make "sat" hard to
@@ -181,7 +181,7 @@ func solveAll(obs []*Obligation, dir string, timeoutS int, keep bool) {
 							dq = dq.Normalized()
 						}
 						f := writeQuery(dir, o.Name+sfx, dq.Script(nil))
-						r := RunPortfolio(f, 4, "")
+						r := RunPortfolio(f, 10, "")
 						if r.Status == "unsat" {
 							r.Solver += "+" + sfx[1:]
 							o.Res = r
@@ -199,18 +199,36 @@ func solveAll(obs []*Obligation, dir string, timeoutS int, keep bool) {
 						if ct > 10 {
 							ct = 10
 						}
+						lc0 := lc
 						if os.Getenv("GOVC_NONORM") == "" {
 							nq := (&Query{Hyps: lc, Goal: lg}).Normalized()
 							lg, lc = nq.Goal, nq.Hyps
 						}
-						dl := t0.Add(time.Duration(timeoutS) * time.Second)
-						r := lazySplit(lg, lc, q.Extra, q.FPMode, dir, o.Name, ct, 60, keep, 2, dl)
+						dl := t0.Add(time.Duration(timeoutS) * time.Second / 2)
+						var hints []*Term
+						if o.ex != nil {
+							hints = o.ex.splitHints
+						}
+						if os.Getenv("GOVC_NONORM") == "" && len(hints) > 0 {
+							// the hints must be in the same normal form as the goal
+							nn := newNormalizer()
+							sub := topLevelEqs(lc0)
+							var hs []*Term
+							for _, h := range hints {
+								if len(sub) > 0 {
+									h = Subst(h, sub)
+								}
+								hs = append(hs, nn.norm(h))
+							}
+							hints = hs
+						}
+						r := lazySplit(lg, lc, q.Extra, q.FPMode, dir, o.Name, ct, 60, keep, 2, dl, hints)
 						if r.Status == "unsat" {
 							o.Res = r
 							done = true
 						} else if ab := (&Query{Hyps: lc, Goal: lg}).AbstractArith(); ab != nil {
 							// the same with multiplication/division/remainder as uninterpreted functions
-							r2 := lazySplit(ab.Goal, ab.Hyps, q.Extra, q.FPMode, dir, o.Name+".abs", ct, 60, keep, 1, dl.Add(time.Duration(timeoutS/2)*time.Second))
+							r2 := lazySplit(ab.Goal, ab.Hyps, q.Extra, q.FPMode, dir, o.Name+".abs", ct, 60, keep, 1, dl.Add(time.Duration(timeoutS/4)*time.Second), nil)
 							if r2.Status == "unsat" {
 								r2.Solver += "+abs"
 								o.Res = r2
@@ -300,8 +318,13 @@ func solveAll(obs []*Obligation, dir string, timeoutS int, keep bool) {
 					}
 				}
 				if !done {
+					// the full query (quantified hypotheses and all instances); less time when the stages already used theirs
+					ft := timeoutS
+					if over() && ft > 20 {
+						ft = ft / 2
+					}
 					o.File = writeQuery(dir, o.Name, full.Script(nil))
-					o.Res = RunPortfolio(o.File, timeoutS, "")
+					o.Res = RunPortfolio(o.File, ft, "")
 				}
 			}
 			if !keep && ((o.Res.Status == "unsat" && !o.Cover) || (o.Cover && o.Res.Status == "sat")) {
